@@ -59,6 +59,24 @@ func spread(name string, n, per int) []core.Batch {
 	return out
 }
 
+// conc lists batches that run the named random batch from 8 goroutines at once (core.RunConcurrently).
+func conc(per int, names ...string) []core.Batch {
+	var out []core.Batch
+	for i, n := range names {
+		out = append(out, core.Batch{Name: core.ConcPrefix + n, Arg: 100 + i, N: per})
+	}
+	return out
+}
+
+// concDispatch: first statement of RunBatch in the properties that have conc batches.
+func concDispatch(p core.Prop, t *core.T, b core.Batch) bool {
+	if !strings.HasPrefix(b.Name, core.ConcPrefix) {
+		return false
+	}
+	core.RunConcurrently(p, t, b, 8)
+	return true
+}
+
 func tierN(tier string, quick, thorough int) int {
 	if tier == "thorough" {
 		return thorough
